@@ -390,11 +390,16 @@ def gen_create(rng, w, s, want_valid):
             c = OWNER
     else:
         roll = rng.random()
-        if roll < 0.45 and taken:
+        if roll < 0.25 and free:
+            # everything valid except, possibly, the caller's right to create
+            a, b = rng.choice(free)
+            c = rng.choice(users)
+            return ["CreatePair", c, a, b, 0, None, na]
+        if roll < 0.55 and taken:
             a, b = rng.choice(taken)            # existing pair, either order
-        elif roll < 0.55:
+        elif roll < 0.63:
             a = b = rng.randint(1, NTOK)
-        elif roll < 0.65:
+        elif roll < 0.71:
             a, b = rng.choice([(0, rng.randint(1, NTOK)), (rng.randint(1, NTOK), 0)])
         elif free:
             a, b = rng.choice(free)
@@ -690,6 +695,11 @@ def gen_op(rng, w, stats):
         st = bootstrap_step(rng, w, s, rng.choice(pend_f))
         if st:
             return st
+    withd0 = [x for x in w.feedests if w.feedests[x]]
+    if withd0 and s["active"] and rng.random() < 0.05:
+        ad = rng.choice(withd0)
+        dest, tok = rng.choice(w.feedests[ad])
+        return ["RSetFeeOff", OWNER, ad, dest, tok]
     if good and (roll < 0.42 or rng.random() < 0.18):
         return gen_multiswap(rng, w, s)
     if roll < 0.50:
@@ -734,7 +744,11 @@ def gen_op(rng, w, stats):
             tok = rng.randint(1, NTOK)
         kind = rng.choice(["RSetFeeOn", "RSetFeeOn", "RSetFeeOff"])
         withd = [x for x in w.feedests if w.feedests[x]]
-        if kind == "RSetFeeOff" and withd and rng.random() < 0.8:
+        if withd and rng.random() < 0.5:
+            kind = "RSetFeeOff"
+        elif not withd and rng.random() < 0.85:
+            kind = "RSetFeeOn"
+        if kind == "RSetFeeOff" and withd and rng.random() < 0.85:
             ad = rng.choice(withd)
             dest, tok = rng.choice(w.feedests[ad])
         return [kind, c, ad, dest, tok]
